@@ -362,8 +362,8 @@ impl<'a> Emitter<'a> {
                 self.render_clauses("ensures", &f.spec.ensures, &format!("{}    ", sig_indent), &mut out, &f.poolstr);
                 out.push(format!("{}{{", sig_indent));
                 self.render_ghost(&f.spec.entry, &indent, &mut out, &f.poolstr);
-                if self.vacuity {
-                    out.push(format!("{}if vx_nondet() {{ assert(false); }} // [vac {}.entry]", indent, f.spec.path));
+                if self.vacuity && !f.spec.attrs.iter().any(|a| a.contains("external_body")) {
+                    out.push(format!("{}if vx_nondet() {{ assert(false); }} // [vac {}.entry]", indent, f.spec.rename.clone().unwrap_or_else(|| f.spec.path.clone())));
                 }
                 continue;
             }
